@@ -260,12 +260,12 @@ SPECS = {
     "C18": dict(
         module="SpawnArgv.tla", runner="spawn", cmp=cmp_c18, nontrivial=lambda c: len(c["argv"]) >= 1,
         cfgs=dict(quick=["SpawnArgv.cfg"], thorough=["SpawnArgv.cfg"]), quick_cap=1500,
-        always=lambda c: c.get("via", "start") != "start",
+        always=lambda c: c.get("via", "start") != "start" or "+" in c["mode"],
         rule="commands with at least one argument; distinct by (command shape, spawn option); tokens are bound to one of six families of awkward strings per case (empty, spaces and tabs, quotes, $ ` $( ), glob characters, newline, backslash, shell operators, multi-byte text, option look-alikes)",
         exhaustive=True,
-        assumptions=["SpawnArgv.tla: argument vectors of up to 3 tokens, shells with up to 2 options, with / without a program option, up to 2 extra arguments, three spawn options",
+        assumptions=["SpawnArgv.tla: argument vectors of up to 3 tokens, shells with up to 2 options, with / without a program option, up to 2 extra arguments, the three basic spawn options for all and every combination of grouped / session / reset_sigmask for the short commands",
                      "a real helper process reports its argv bytes, pid, process group, session, working directory and environment; byte fidelity below std::process and process-wrap is the operating system's",
-                     "quick tier: a seeded sample of 1500 of the 4683 cases; thorough: all"],
+                     "quick tier: a seeded sample of 1500 of the 5035 cases (all respawn variants and all option combinations are always kept); thorough: all"],
     ),
     "C14": dict(
         module="Discover.tla", runner="discover", cmp=cmp_c14, seeded=True, workers=8,
